@@ -582,3 +582,8 @@ BOUNDS = {
 OUTSIDE = ["histories longer than prefix+3 (k-step simulation from every canonical state replaces length-40 histories; assumes the observable state - ordered contents and counters - determines future behaviour)", "more than 4 distinct keys in the dynamics part, maxsize 4..5 concretely (covered by the symbolic-maxsize harness against the model only)", "unhashable arguments"]
 NONTRIVIAL_RULE = ">=2 operations executed on the path"
 ASSUMPTIONS = ["functools.lru_cache (C implementation) is called under crosshair.tracers.NoTracing because CrossHair otherwise disables its caching; its inputs are concrete pool values on every path", "the reference model (OrderedDict + functools._make_key) is compared with functools.lru_cache in the same run on every history without cache_discard"]
+
+MANIFEST = {
+    "text": 'Key equivalence for all ordered pairs of 24 call patterns x typed; k-step simulation from every canonical cache state with a recency probe, against the real C functools.lru_cache and a reference model, incl. maxsize as an unbounded symbolic int; methods/classmethods/staticmethods; decorator forms. Nothing is claimed outside the bounds listed in the evidence file.',
+    "note": 'Trusted: CrossHair 0.0.110 (with short-circuiting off and a refined callable() model), z3 5.1.0, the harness oracles. Assumes observable state (ordered contents + counters) determines future behaviour; functools oracle runs under NoTracing.',
+}
